@@ -58,6 +58,23 @@ func __rac_caller(skip int) string {
 func __rac_prefail(name string) { __rac_emit("RAC-PREFAIL", __rac_caller(2)+"#pre:"+name) }
 
 func __old[T any](x T) T                         { return x }
+
+// __snap evaluates an old() expression at function entry; a run-time panic
+// while evaluating it (the precondition does not hold) yields the zero value.
+func __snap[T any](f func() T) (r T) {
+	defer func() { recover() }()
+	return f()
+}
+
+// __guard evaluates a specification condition; a panic counts as false.
+func __guard(f func() bool) (r bool) {
+	defer func() {
+		if recover() != nil {
+			r = false
+		}
+	}()
+	return f()
+}
 func __imp(a, b bool) bool                       { return !a || b }
 func __iff(a, b bool) bool                       { return a == b }
 func __fresh(x any) bool                         { return true }
@@ -65,6 +82,10 @@ func __elems(x any) any                          { return x }
 func __samefn(a, b any) bool                     { return true }
 func __entry[T any](x T) T                       { return x }
 func __rangeindex() int                          { return 0 }
+func __disjoint(a, b any) bool                   { return true }
+func __ghost(name string) int                    { return 0 }
+func __lastsent[T any](ch chan T) (r T)          { return }
+func __sentcount[T any](ch chan T) int           { return 0 }
 func __forall(lo, hi int, f func(int) bool) bool {
 	for i := lo; i < hi; i++ {
 		if !f(i) {
@@ -133,7 +154,16 @@ func shortPkgOfDir(root, dir string) string {
 }
 
 // buildOverlayRAC instruments one package directory with executable checks.
+// racOldTypes: per package directory and function key, the Go type text of
+// every old(...) expression of the ensures clauses in order (filled from the
+// typed program when available; without it old() is evaluated eagerly).
+var racOldTypes = map[string]map[string][]string{}
+
 func buildOverlayRAC(root, pkgDir string) (map[string][]byte, error) {
+	oldTypes := racOldTypes[pkgDir]
+	if oldTypes == nil {
+		oldTypes = map[string][]string{}
+	}
 	racMode = true
 	defer func() { racMode = false }()
 	files := map[string][]byte{}
@@ -198,23 +228,29 @@ func buildOverlayRAC(root, pkgDir string) (map[string][]byte, error) {
 			var sb strings.Builder
 			sb.WriteString(" __racPre := true;")
 			for _, r := range c.Requires {
-				if txt, ok := substClause(r.Text, lastErr, res0); ok {
-					fmt.Fprintf(&sb, " __racPre = __racPre && (%s);", specToGo(txt, resultName))
+				if txt, ok := substAll(r.Text, fd, lastErr, res0); ok {
+					fmt.Fprintf(&sb, " __racPre = __racPre && __guard(func() bool { return %s });", specToGo(txt, resultName))
 				}
 			}
 			fmt.Fprintf(&sb, " if !__racPre { __rac_prefail(%q) };", c.Key)
 			counter := 0
+			ti := 0
 			var checks strings.Builder
 			for _, r := range c.Ensures {
-				rt, ok := substClause(r.Text, lastErr, res0)
+				rt, ok := substAll(r.Text, fd, lastErr, res0)
 				if !ok {
 					continue
 				}
 				txt, hoists := hoistOld(rt, &counter)
 				for _, h := range hoists {
-					fmt.Fprintf(&sb, " %s := __old(%s); _ = %s;", h[0], specToGo(h[1], resultName), h[0])
+					if ti < len(oldTypes[c.Key]) && oldTypes[c.Key][ti] != "" {
+						fmt.Fprintf(&sb, " %s := __snap(func() %s { return %s }); _ = %s;", h[0], oldTypes[c.Key][ti], specToGo(h[1], resultName), h[0])
+					} else {
+						fmt.Fprintf(&sb, " %s := __old(%s); _ = %s;", h[0], specToGo(h[1], resultName), h[0])
+					}
+					ti++
 				}
-				fmt.Fprintf(&checks, " if !(%s) { __rac_fail(%q) };", specToGo(txt, resultName), full+"#post:"+r.Label)
+				fmt.Fprintf(&checks, " if !__guard(func() bool { return %s }) { __rac_fail(%q) };", specToGo(txt, resultName), full+"#post:"+r.Label)
 			}
 			if len(c.Ensures) > 0 {
 				fmt.Fprintf(&sb, " defer func() { if r := recover(); r != nil { panic(r) }; if __racPre {%s } }();", checks.String())
@@ -240,10 +276,10 @@ func buildOverlayRAC(root, pkgDir string) (map[string][]byte, error) {
 				var lb strings.Builder
 				for _, r := range lc.Invariants {
 					txt, hoists := hoistOld(r.Text, &counter)
-					if len(hoists) > 0 || strings.Contains(txt, "entry(") || strings.Contains(txt, "rangeindex(") {
+					if len(hoists) > 0 || strings.Contains(txt, "entry(") || strings.Contains(txt, "rangeindex(") || strings.Contains(txt, "ghost(") {
 						continue // invariants over old()/entry() are not checked at run time
 					}
-					fmt.Fprintf(&lb, " if __racPre && !(%s) { __rac_fail(%q) };", specToGo(txt, resultName), fmt.Sprintf("%s#inv:loop%d.%s", full, n, r.Label))
+					fmt.Fprintf(&lb, " if __racPre && !__guard(func() bool { return %s }) { __rac_fail(%q) };", specToGo(txt, resultName), fmt.Sprintf("%s#inv:loop%d.%s", full, n, r.Label))
 				}
 				ins = append(ins, insertion{off(loopBody(loops[n-1]).Lbrace) + 1, lb.String()})
 			}
@@ -275,6 +311,7 @@ import (
 	"encoding/json"
 	"fmt"
 	"os"
+	"os/exec"
 	"runtime/debug"
 	"strings"
 	"sync"
@@ -309,6 +346,62 @@ func hvcStage(name string, f func()) (ok bool) {
 	}()
 	f()
 	return true
+}
+
+// TestHvcReplayChild compiles and runs one accepted program on the VM and
+// on the tree-walking interpreter.
+func TestHvcReplayChild(t *testing.T) {
+	idx := os.Getenv("HVC_CHILD_INDEX")
+	if idx == "" {
+		return
+	}
+	data, err := os.ReadFile(os.Getenv("HVC_REPLAY_CORPUS"))
+	if err != nil {
+		t.Fatal(err)
+	}
+	var corpus []string
+	if err := json.Unmarshal(data, &corpus); err != nil {
+		t.Fatal(err)
+	}
+	var n int
+	fmt.Sscanf(idx, "%d", &n)
+	text := corpus[n]
+	analyzed, _, _ := Analyze(InputProgram{ProgramText: text, Filename: "replay"}, TestingAnalyzerScopeAdditions(), TestingAnalyzerHost{}, true)
+	ex := TestingVmExecutor{PrintToStdout: false, PrintBuf: new(string), PintBufMutex: &sync.Mutex{}}
+	comp := compiler.NewCompiler(analyzed, "replay")
+	compiled, cerr := comp.Compile()
+	if cerr != nil {
+		return
+	}
+	ctx, cancel := context.WithTimeout(context.Background(), 2*time.Second)
+	defer cancel()
+	vm := runtime.NewVM(compiled, vmValue.Executor(ex), &ctx, &cancel, TestingVmScopeAdditions(), testingLimits)
+	vm.SpawnAsync(runtime.MainFn(), nil, nil, nil)
+	done := make(chan bool, 1)
+	go func() { vm.Wait(); done <- true }()
+	select {
+	case <-done:
+	case <-time.After(4 * time.Second):
+		fmt.Fprintf(os.Stderr, "RAC-HANG vm\n")
+	}
+	// tree-walking interpreter
+	ictx, icancel := context.WithTimeout(context.Background(), 2*time.Second)
+	defer icancel()
+	idone := make(chan bool, 1)
+	go func() {
+		defer func() {
+			if r := recover(); r != nil {
+				fmt.Fprintf(os.Stderr, "RAC-PANIC interpreter stage=run msg=%q\n", fmt.Sprint(r))
+			}
+			idone <- true
+		}()
+		Run(20000, analyzed, "replay", TestingTreeExecutor{Output: new(string)}, TestingInterpreterScopeAdditions(), &ictx)
+	}()
+	select {
+	case <-idone:
+	case <-time.After(4 * time.Second):
+		fmt.Fprintf(os.Stderr, "RAC-HANG interpreter\n")
+	}
 }
 
 func TestHvcReplay(t *testing.T) {
@@ -364,19 +457,38 @@ func TestHvcReplay(t *testing.T) {
 			if !strings.Contains(stages, "run") {
 				return
 			}
-			hvcStage("compile+vm", func() {
-				ex := TestingVmExecutor{PrintToStdout: false, PrintBuf: new(string), PintBufMutex: &sync.Mutex{}}
-				comp := compiler.NewCompiler(analyzed, "replay")
-				compiled, err := comp.Compile()
-				if err != nil {
-					return
+			_ = analyzed
+			// accepted programs run in a child process: a Go panic inside a VM core
+			// (a goroutine) would otherwise take the whole driver down
+			cmd := exec.Command(os.Args[0], "-test.run=^TestHvcReplayChild$", "-test.v")
+			cmd.Env = append(os.Environ(), fmt.Sprintf("HVC_CHILD_INDEX=%d", n))
+			out, err := cmd.CombinedOutput()
+			for _, ln := range strings.Split(string(out), "\n") {
+				if strings.HasPrefix(ln, "RAC-") {
+					fmt.Fprintln(os.Stderr, ln)
 				}
-				ctx, cancel := context.WithTimeout(context.Background(), 2*time.Second)
-				defer cancel()
-				vm := runtime.NewVM(compiled, vmValue.Executor(ex), &ctx, &cancel, TestingVmScopeAdditions(), testingLimits)
-				vm.SpawnAsync(runtime.FunctionInvocation{Function: compiler.InitFunctionIdent, Args: make([]vmValue.Value, 0), FunctionSignature: runtime.FunctionInvocationSignature{}}, nil, nil, nil)
-				vm.Wait()
-			})
+			}
+			if err != nil {
+				where, msg := "?", ""
+				lines := strings.Split(string(out), "\n")
+				for i, ln := range lines {
+					if strings.HasPrefix(ln, "panic:") && msg == "" {
+						msg = ln
+					}
+					if msg != "" && strings.HasPrefix(ln, "github.com/smarthome-go/homescript/v3/homescript") && !strings.Contains(ln, "TestHvcReplay") && where == "?" {
+						w := strings.TrimPrefix(ln, "github.com/smarthome-go/homescript/v3/homescript/")
+						if k := strings.LastIndex(w, "("); k > 0 {
+							w = w[:k]
+						}
+						where = strings.ReplaceAll(strings.ReplaceAll(w, "(*", ""), ")", "")
+					}
+					_ = i
+				}
+				if msg == "" {
+					msg = "child exited: " + err.Error()
+				}
+				fmt.Fprintf(os.Stderr, "RAC-PANIC %s stage=run msg=%q\n", where, msg)
+			}
 		})
 		_ = accepted
 	}
@@ -385,9 +497,9 @@ func TestHvcReplay(t *testing.T) {
 
 type RacRun struct {
 	UnitOutput string
-	Lines   []string // raw RAC-* lines in order
-	ByInput map[int][]string
-	Output  string
+	Lines      []string // raw RAC-* lines in order
+	ByInput    map[int][]string
+	Output     string
 }
 
 // runRAC executes the replay driver over the corpus with the RAC overlay of
